@@ -6,6 +6,16 @@ def rapid(sub, quick, thorough, shards=8, **kw):
     return d
 
 PROPS = {
+    "C02": {"jobs": [
+        rapid("C02a", 4000, 20000, shards=6, race_shards=1),
+        rapid("C02b", 2500, 10000, shards=4),
+    ]},
+    "C03": {"jobs": [
+        rapid("C03a", 5000, 25000, shards=8, race_shards=2),
+    ]},
+    "C04": {"jobs": [
+        rapid("C04a", 5000, 25000, shards=8, race_shards=1),
+    ]},
     "C17": {"jobs": [
         rapid("C17a", 30000, 200000, shards=4),
         rapid("C17b", 3000, 20000, shards=4),
